@@ -1,4 +1,5 @@
 """C20 — the CLI reports exactly what the library computes (translation validation of the built binary)."""
+import binascii
 import json
 import os
 import random
@@ -17,8 +18,8 @@ from registry import REGISTRY
 ANSI = re.compile(r"\x1b\[[0-9;]*m")
 
 
-def build_cli():
-    out = os.path.join(runner.BUILD, "numscript-cli")
+def build_cli(name="numscript-cli"):
+    out = os.path.join(runner.BUILD, name)
     if os.path.exists(out):
         os.remove(out)
     r = runner.sh(["go", "build", "-o", out, "./internal/numscript"], cwd=runner.REPO, env=runner.GOENV)
@@ -28,9 +29,10 @@ def build_cli():
 
 
 def run_cli(args, stdin=None, cwd=None):
+    """bytes in, bytes out (no newline translation: a message may contain a CR)"""
     try:
-        p = subprocess.run(args, input=stdin, stdout=subprocess.PIPE, stderr=subprocess.PIPE, text=True, timeout=30, cwd=cwd)
-        return p.returncode, p.stdout, p.stderr
+        p = subprocess.run(args, input=None if stdin is None else stdin.encode("utf-8"), stdout=subprocess.PIPE, stderr=subprocess.PIPE, timeout=30, cwd=cwd)
+        return p.returncode, p.stdout.decode("utf-8", "replace"), p.stderr.decode("utf-8", "replace")
     except subprocess.TimeoutExpired:
         return -99, "", "timeout"
 
@@ -46,6 +48,7 @@ def run(chk):
     rng = random.Random("C20-%d" % chk.seed)
     tmp = tempfile.mkdtemp(prefix="nscli")
     fails = []
+    model_dis = []
     stats = {"programs": 0, "disagreements_checked": 0, "check_runs": 0, "run_runs": 0, "distinct_nontrivial": 0, "evaluations": 0}
     samples = []
     try:
@@ -145,6 +148,7 @@ def run(chk):
             cjobs.append([cli, "check", p])
         with ThreadPoolExecutor(max_workers=runner.NPROC) as ex:
             cres = list(ex.map(lambda a: run_cli(a), cjobs))
+        report_jobs = []
         for t, o, argv, (code, out, err) in zip(texts, gos2, cjobs, cres):
             stats["check_runs"] += 1
             stats["disagreements_checked"] += 1
@@ -161,11 +165,49 @@ def run(chk):
             want = sorted((d[2].split("-")[0].split(":")[0], d[2].split("-")[0].split(":")[1], {"1": "Error", "2": "Warning"}.get(d[1], "?")) for d in o["diags"])
             if sorted(listed) != want:
                 why.append("listed diagnostics %s, library %s" % (sorted(listed)[:6], want[:6]))
+            elif [(int(a), int(b)) for a, b, _ in listed] != sorted((int(a), int(b)) for a, b, _ in listed):
+                why.append("diagnostics are not listed in position order: %s" % listed[:8])
+            elif o.get("messages") is not None and len(o["messages"]) == len(o["diags"]):
+                # the whole report: the model prints the library's diagnostics (position, severity, message) in the
+                # order the CLI chose among equal positions; stdout must be exactly that
+                pool = {}
+                for d, msg in zip(o["diags"], o["messages"]):
+                    l, ch = d[2].split("-")[0].split(":")
+                    pool.setdefault((l, ch, {"1": "Error", "2": "Warning"}.get(d[1], "?")), []).append((d[1], msg))
+                ordered = []
+                blocks = re.split(r"(?m)^(?=%s:\d+:\d+ - )" % re.escape(argv[2]), clean)
+                ok_order = True
+                for key, blk in zip(listed, [b for b in blocks if b.startswith(argv[2] + ":")]):
+                    cands = pool.get(key, [])
+                    body = blk.split("\n", 1)[1] if "\n" in blk else ""
+                    pick = next((i for i, (sv, msg) in enumerate(cands) if body.startswith(msg + "\n")), None)
+                    if pick is None:
+                        ok_order = False
+                        why.append("diagnostic at %s:%s is not printed with the library's message (one of %s); printed %r" % (key[0], key[1], [m for _, m in cands][:3], body[:120]))
+                        break
+                    sv, msg = cands.pop(pick)
+                    ordered.append((key[0], key[1], sv, msg))
+                if ok_order:
+                    report_jobs.append((t, argv, code, out, ordered, o))
             if o["diags"]:
                 stats["distinct_nontrivial"] += 1
             if why:
                 fails.append(({"script": t}, {"exit": code, "stdout": clean[:600]}, {"diags": o["diags"]}, why))
         stats["programs"] += len(texts)
+        # model of the report (Model/CliReport.lean) on the same diagnostics: byte-identical stdout, same status
+        lines = ["checkreport\t%d\t%s\t%s" % (i, runner.enc(argv[2]), " ".join("%s %s %s %s" % (l, ch, sv, runner.enc(msg)) for l, ch, sv, msg in ordered))
+                 for i, (t, argv, code, out, ordered, o) in enumerate(report_jobs)]
+        model_dis = []
+        for (t, argv, code, out, ordered, o), ml in zip(report_jobs, runner.run_lean(lines) if lines else []):
+            f = (ml or "").split("\t")
+            stats["model_comparisons"] = stats.get("model_comparisons", 0) + 1
+            if len(f) >= 4 and f[1] == "ok":
+                mout = binascii.unhexlify(f[2]).decode("utf-8") if f[2] != "-" else ""
+                if mout != out or int(f[3]) != code:
+                    model_dis.append(({"script": t}, {"exit": code, "stdout": out[:800]}, {"exit": f[3], "stdout": mout[:800]},
+                                      ["the report printed by `check` differs from the model's report of the library's diagnostics"]))
+            else:
+                model_dis.append(({"script": t}, {"exit": code, "stdout": out[:300]}, ml, ["report model failed"]))
     finally:
         shutil.rmtree(tmp, ignore_errors=True)
         try:
@@ -174,7 +216,10 @@ def run(chk):
             pass
     for c, go, m_, why in fails[:10]:
         chk.violation("oracle", case=c, go=go, model=m_, oracle=why)
+    stats["model_disagreements"] = len(model_dis)
     if not fails:
+        for c, go, m_, why in model_dis[:3]:
+            chk.violation("correspondence:" + why[0], case=c, go=go, model=m_, found_input=False)
         for t in broken:
             chk.violation("theorem:%s no longer checks" % t, found_input=False, site="theorem:" + t)
     stats["evaluations"] = stats["run_runs"] + stats["check_runs"]
